@@ -691,11 +691,11 @@ def request(ops):
 def generate(seed, tier):
     r = rng(seed, FAMILY)
     quick = tier == "quick"
-    for _ in range(8 if quick else 100):
+    for _ in range(25 if quick else 200):
         yield request(f10_history(r))
-    for _ in range(8 if quick else 100):
+    for _ in range(25 if quick else 200):
         yield request(capacity_walk(r))
-    n = 420 if quick else 6000
+    n = 3000 if quick else 20000
     for i in range(n):
         nops = r.choice([3, 8, 15, 30]) if quick else r.choice([10, 30, 100, 300])
         x = r.random()
